@@ -571,19 +571,30 @@ const _: () = {
 
         fn next_element_seed<T>(&mut self, seed: T) -> Result<Option<T::Value>, Self::Error>
         where T: serde::de::DeserializeSeed<'de> {
-            if self.section.is_empty() {
-                return Ok(None)
+            if self.first {
+                /* empty section is an empty sequence */
+                if self.section.is_empty() {
+                    return Ok(None)
+                }
+                self.first = false;
+            } else {
+                /* elements are separated by `,` ( the test was inverted and the `,` was never skipped ) */
+                match self.section.split_first() {
+                    None               => return Ok(None),
+                    Some((b',', rest)) => self.section = rest,
+                    Some(_)            => return Err(serde::de::Error::custom("missing ,"))
+                }
             }
-            if !self.first && self.section.first() == Some(&b',') {
-                return Err(serde::de::Error::custom("missing ,"))
-            }
-            self.first = false;
 
             let size = self.section.iter().position(|b| b==&b',').unwrap_or(self.section.len());
             let (element, remaining) = self.section.split_at(size);
             self.section = remaining;
 
-            seed.deserialize(element.into_deserializer()).map(Some)
+            /* elements are percent-encoded by the serializer just as other values */
+            match percent_decode(element) {
+                Cow::Borrowed(bytes) => seed.deserialize(bytes.into_deserializer()).map(Some),
+                Cow::Owned(byte_vec) => seed.deserialize(serde::de::value::BytesDeserializer::new(&byte_vec)).map(Some),
+            }
         }
     }
 };
